@@ -585,6 +585,54 @@ def close_rule(ctx, rr):
     if miss:
         rr.fail(ctx.finding('R-CLOSE', u, u.node, 'Traph.close() never closes %s: buffered blocks of that file are not flushed, so a reopen sees a shorter '
                             '(possibly partial-block) file than the other store refers to' % sorted(miss), stmt='close misses %s' % sorted(miss)))
+    # every path through close() closes each file, or finds that file's own handle empty.  A path that skips the closes under another
+    # attribute (an "already closed" flag) is sound only if every function that opens the files binds that attribute again.
+    cfg = ctx.cfg(u)
+
+    def falsy_branch_of(lab, attr):
+        """the branch is taken only when the file `attr` needs no closing: its handle is empty, or the handle says it is closed already"""
+        if not lab or lab[0] not in ('T', 'F') or lab[1] is None:
+            return False
+
+        def exc(t, truth):
+            if isinstance(t, ast.UnaryOp) and isinstance(t.op, ast.Not):
+                return exc(t.operand, not truth)
+            if isinstance(t, ast.BoolOp):
+                sub = [exc(v, truth) for v in t.values]
+                conj = isinstance(t.op, ast.And)
+                return any(sub) if (conj == truth) else all(sub)
+            if self_attr(t) == attr:
+                return not truth
+            if isinstance(t, ast.Attribute) and t.attr == 'closed' and self_attr(t.value) == attr:
+                return truth
+            if isinstance(t, ast.Compare) and len(t.ops) == 1 and self_attr(t.left) == attr and isinstance(t.comparators[0], ast.Constant) and t.comparators[0].value is None:
+                return truth if isinstance(t.ops[0], (ast.Is, ast.Eq)) else not truth
+            return False
+        return exc(lab[1], lab[0] == 'T')
+    for attr in sorted(opened & set(closed)):
+        def tr(nd, st, attr=attr):
+            root = node_root(nd)
+            if root is not None and any(x in closed[attr] for x in ast.walk(root)):
+                return True
+            return st
+        IN = solve_forward(cfg, False, tr, lambda lab, st, attr=attr: True if falsy_branch_of(lab, attr) else st, lambda a, b: a and b)
+        okp = IN.get(cfg.exit.id, True)
+        flags = set()
+        if not okp:
+            for i_ in P.own(u, ast.If):
+                flags |= {self_attr(x) for x in ast.walk(i_.test) if self_attr(x)} - opened
+            openers = [fu for fu in P.require_class('Traph').values()
+                       if any(isinstance(a.value, ast.Call) and isinstance(a.value.func, ast.Name) and a.value.func.id == 'open' and any(self_attr(t) in opened for t in a.targets)
+                              for a in P.own(fu, ast.Assign))]
+            lax = [fu for fu in openers for fl in flags
+                   if not any(any(self_attr(t) == fl for t in (a.targets if isinstance(a, ast.Assign) else [a.target])) for a in P.own(fu, (ast.Assign, ast.AugAssign, ast.AnnAssign)))]
+            okp = bool(flags) and not lax
+        rr.ob(ctx.where(u), 'every path through close() closes self.%s (or finds it empty), or is skipped under a flag that every (re)opening function resets' % attr, ok=okp)
+        if not okp:
+            who = sorted({fu.qual for fu in lax}) if flags else []
+            rr.fail(ctx.finding('R-CLOSE', u, u.node, 'Traph.close() can return without closing self.%s%s: the last buffered blocks of that file never reach the disk, so a reopen sees a shorter '
+                                'store than the index that was closed' % (attr, (' (it returns early under %s, which %s does not reset when it reopens the files)' % (sorted(flags), ', '.join(who)))
+                                                                          if who else ''), stmt='close path skips %s' % attr))
     gf = None
     for attr, cs in closed.items():
         for c in cs:
@@ -678,6 +726,22 @@ def primitives(ctx, rr):
         if not ok:
             rr.fail(ctx.finding('R-PRIMITIVES', u, u.node, '%s.%s can return without %s: callers rely on it unconditionally (a skipped refresh lets a stale copy be written back, '
                                 'a skipped write loses the update)' % (cls, name, what), stmt='%s.%s conditional' % (cls, name)))
+    # refresh() gives the block as it is on disk: nothing of the old copy survives the re-read (no field of the node is assigned in
+    # refresh itself; what read() assigns is the block)
+    for cls in ('LRUTrieNode', 'LinkStoreNode'):
+        if P.method_of(cls, 'refresh') is None:
+            continue
+        u = P.method(cls, 'refresh')
+        own = []
+        for a in P.own(u, (ast.Assign, ast.AugAssign, ast.AnnAssign)):
+            tgs = a.targets if isinstance(a, ast.Assign) else [a.target]
+            for t in tgs:
+                if any(self_attr(x) for x in ast.walk(t)):
+                    own.append(a)
+        rr.ob(ctx.where(u), '%s.refresh keeps nothing of the old copy' % cls, ok=not own)
+        for a in own[:1]:
+            rr.fail(ctx.finding('R-PRIMITIVES', u, a, '%s.refresh changes the node after re-reading it (`%s`): part of the stale copy is merged back into the fresh block, so a flag or '
+                                'pointer another request changed meanwhile is restored to its old value at the next write' % (cls, ast.unparse(a)[:50]), stmt='%s.refresh merges' % cls))
     rr.require(n, 8, 'persistence primitives')
 
 
@@ -763,16 +827,30 @@ def nearest_we(ctx, rr):
             head = [x for x in cfg.nodes if x.loop is lp]
             gf = None
             bad = []
+            def we_call(e):
+                return isinstance(e, ast.Call) and isinstance(e.func, ast.Attribute) and e.func.attr == 'webentity' and isinstance(e.func.value, ast.Name) \
+                    and e.func.value.id in lv
             for a in ast.walk(lp):
-                if not (isinstance(a, ast.Assign) and len(a.targets) == 1 and isinstance(a.targets[0], ast.Name) and isinstance(a.value, ast.Call)
-                        and isinstance(a.value.func, ast.Attribute) and a.value.func.attr == 'webentity' and isinstance(a.value.func.value, ast.Name)
-                        and a.value.func.value.id in lv):
+                if not (isinstance(a, ast.Assign) and len(a.targets) == 1 and isinstance(a.targets[0], ast.Name) and any(we_call(x) for x in ast.walk(a.value))):
                     continue
                 var = a.targets[0].id
                 if gf is None:
                     gf = guard_facts(ctx, u)
                 facts = gf.facts_at(a.value) or set()
                 empty_guard = any((f[0] == 'F' and f[1] == var) or (f[0] == 'T' and f[1].replace(' ', '') in (var + 'isNone', 'not' + var)) for f in facts)
+                v_ = a.value
+                if not we_call(v_):
+                    # `var = var or p.webentity()` / `var = var if var else p.webentity()` keep the first one; the mirrored forms prefer the ancestor
+                    is_var = lambda e: isinstance(e, ast.Name) and e.id == var
+                    if isinstance(v_, ast.BoolOp) and isinstance(v_.op, ast.Or) and len(v_.values) == 2 and is_var(v_.values[0]) and we_call(v_.values[1]):
+                        empty_guard = True
+                    elif isinstance(v_, ast.IfExp) and is_var(v_.test) and is_var(v_.body) and we_call(v_.orelse):
+                        empty_guard = True
+                    elif isinstance(v_, ast.IfExp) and isinstance(v_.test, ast.UnaryOp) and isinstance(v_.test.op, ast.Not) and is_var(v_.test.operand) and we_call(v_.body) \
+                            and is_var(v_.orelse):
+                        empty_guard = True
+                    elif not any(is_var(x) for x in ast.walk(v_)) and not isinstance(v_, (ast.BoolOp, ast.IfExp)):
+                        continue        # something computed from the ancestor's webentity, not the resolution result itself
                 # does control come back to the loop head after the assignment?
                 start = [x for x in cfg.nodes if x.ast is a]
                 back = False
@@ -1005,6 +1083,11 @@ def every_item(ctx, rr):
                     src = [a.value for a in P.own(u, ast.Assign) if any(isinstance(tt, ast.Name) and tt.id == t.id for tt in a.targets)]
                     if src and any(isinstance(v, ast.Call) and isinstance(v.func, ast.Attribute) and v.func.attr == 'get' for v in src):
                         return True, neg          # `if not x:` -> new when true
+                    # a named membership test: `is_new = key not in seen; if is_new:`
+                    if len(src) == 1 and isinstance(src[0], (ast.Compare, ast.UnaryOp)):
+                        m_, new_ = membership(src[0])
+                        if m_:
+                            return True, new_ != neg
                 return False, None
             while lp is not None and not isinstance(lp, (ast.For, ast.While)):
                 if guard is None and isinstance(lp, ast.If) and membership(lp.test)[0]:
@@ -1151,6 +1234,10 @@ def yield_neutral(ctx, rr):
             n += 1
             only_yield = all(isinstance(s, ast.Expr) and isinstance(s.value, ast.Yield) for s in i.body)
             lone_test = i.test is calls[0]
+            # `if A and state.should_yield(k):` is `if A: if state.should_yield(k):` - the yield point sits in a branch, as some do
+            if not lone_test and isinstance(i.test, ast.BoolOp) and isinstance(i.test.op, ast.And) and i.test.values[-1] is calls[0] \
+                    and not any(isinstance(c_, ast.Call) and c_ is not calls[0] and isinstance(c_.func, ast.Attribute) and c_.func.attr == 'should_yield' for c_ in ast.walk(i.test)):
+                lone_test = True
             ok = only_yield and not i.orelse and lone_test
             if not ok and isinstance(i.test, ast.UnaryOp) and isinstance(i.test.op, ast.Not) and i.test.operand is calls[0] and not i.orelse \
                     and len(i.body) == 1 and isinstance(i.body[0], ast.Continue):
@@ -1233,3 +1320,120 @@ def lazy_request(ctx, rr):
             rr.fail(ctx.finding('R-LAZY-REQUEST', u, c, '%s runs `%s` when the request is created, not when it is advanced: what it reads or writes then (a node copy, a pointer) is stale by the '
                                 'first step if another request is advanced in between, and is written back over the newer block' % (u.qual, ast.unparse(c)[:50])))
     rr.require(n, 12, 'resumable entry points (Traph.*_iter)')
+
+
+# ------------------------------------------------------------------------------------------------ R-FORMAT-ARITY
+_FMT = None
+
+
+def _conversions(text):
+    """number of values a %-format literal consumes (None when it uses mapping keys)"""
+    import re
+    global _FMT
+    if _FMT is None:
+        _FMT = re.compile(r'%(\([^)]*\))?[#0\- +]*(\*|\d+)?(?:\.(\*|\d+))?[hlL]?([diouxXeEfFgGcrsab%])')
+    if isinstance(text, bytes):
+        text = text.decode('latin-1')
+    n = 0
+    for m in _FMT.finditer(text):
+        if m.group(4) == '%':
+            continue
+        if m.group(1):
+            return None
+        n += 1 + (m.group(2) == '*') + (m.group(3) == '*')
+    return n
+
+
+SCALAR_BUILTINS = {'len', 'str', 'int', 'repr', 'float', 'hex', 'bytes', 'bool', 'abs', 'ord', 'chr', 'type', 'id', 'sum', 'min', 'max'}
+
+
+@rule('R-FORMAT-ARITY')
+def format_arity(ctx, rr):
+    """a message built with `literal % values` gets as many values as the literal has conversions: otherwise building the
+    message raises TypeError exactly on the path that wanted to raise the library's own error (or to warn)"""
+    P = ctx.P
+    n = 0
+    for u in P.units:
+        for b in P.own(u, ast.BinOp):
+            if not (isinstance(b.op, ast.Mod) and isinstance(b.left, ast.Constant) and isinstance(b.left.value, (str, bytes))):
+                continue
+            want = _conversions(b.left.value)
+            if want is None:
+                continue
+            r = b.right
+            if isinstance(r, ast.Tuple) and not any(isinstance(e, ast.Starred) for e in r.elts):
+                got = len(r.elts)
+            elif isinstance(r, ast.Constant) or (isinstance(r, ast.Call) and isinstance(r.func, ast.Name) and r.func.id in SCALAR_BUILTINS) \
+                    or (isinstance(r, ast.BinOp) and not isinstance(r.op, ast.Mod)) or isinstance(r, ast.JoinedStr):
+                got = 1
+            else:
+                continue        # a name / attribute / call that may hold a tuple: not decided
+            n += 1
+            ok = got == want
+            rr.ob(ctx.where(u, b), '%s: format literal with %d conversion(s) gets %d value(s)' % (u.qual, want, got), ok=ok)
+            if not ok:
+                rr.fail(ctx.finding('R-FORMAT-ARITY', u, b, '%s formats `%s` (%d conversions) with %d value(s): building the message raises TypeError, so the request fails with a foreign error '
+                                    'instead of the refusal / warning it was about to issue' % (u.qual, str(b.left.value)[:40], want, got)))
+    # the count may legitimately be zero (messages moved to str.format / f-strings): the counter itself is exercised on every run
+    probe = [_conversions('a %s b %i%%'), _conversions(b'%5.2f|%*d'), _conversions('%(k)s')]
+    if probe != [2, 3, None]:
+        raise AnalysisError('R-FORMAT-ARITY: conversion counter self-test failed: %s' % probe)
+    rr.info['decidable_sites'] = n
+
+
+# ------------------------------------------------------------------------------------------------ R-SINGLE-PASS
+CONSUMERS = {'list', 'tuple', 'set', 'frozenset', 'sorted', 'dict', 'enumerate', 'zip', 'map', 'filter', 'iter', 'reversed', 'sum', 'min', 'max', 'any', 'all'}
+
+
+@rule('R-SINGLE-PASS')
+def single_pass(ctx, rr):
+    """a batch handed to a request as a plain iterable (only ever iterated: never indexed, measured or asked for items()) is
+    walked once: a second pass over a generator / cursor argument finds it exhausted and silently does nothing"""
+    P = ctx.P
+    n = 0
+    for name, u in P.require_class('Traph').items():
+        if name.startswith('__'):
+            continue
+        for prm in u.call_params:
+            uses = [x for x in P.own(u, ast.Name) if x.id == prm and isinstance(x.ctx, ast.Load)]
+            if not uses:
+                continue
+
+            def site_kind(x):
+                par = P.parent.get(id(x))
+                if isinstance(par, ast.For) and par.iter is x:
+                    return 'iter'
+                if isinstance(par, ast.comprehension) and par.iter is x:
+                    return 'iter'
+                if isinstance(par, ast.Call) and isinstance(par.func, ast.Name) and par.func.id in CONSUMERS and x in par.args:
+                    return 'iter'
+                return 'other'
+            kinds = [site_kind(x) for x in uses]
+            if 'iter' not in kinds or 'other' in kinds:
+                continue        # not a batch, or used as a sequence / mapping / forwarded (the callee is checked on its own)
+            n += 1
+            cfg = ctx.cfg(u)
+            iter_ids = {id(x) for x, k in zip(uses, kinds) if k == 'iter'}
+            second = []
+
+            def tr(nd, st, report=False):
+                root = node_root(nd)
+                if root is None:
+                    return st
+                hit = [x for x in ast.walk(root) if id(x) in iter_ids]
+                for x in hit:
+                    if st >= 1 and report:
+                        second.append(x)
+                    st = min(st + 1, 2)
+                if nd.kind == 'stmt' and prm in names_assigned(nd):
+                    st = 0          # re-bound (materialised): a new value
+                return st
+            IN = solve_forward(cfg, 0, lambda nd, st: tr(nd, st), lambda lab, st: st, max)
+            for nd in cfg.nodes:
+                if nd.id in IN:
+                    tr(nd, IN[nd.id], True)
+            rr.ob(ctx.where(u), '%s walks its batch argument `%s` once' % (u.qual, prm), ok=not second)
+            for x in second[:1]:
+                rr.fail(ctx.finding('R-SINGLE-PASS', u, x, '%s iterates its argument `%s` a second time: the argument is only ever iterated, so callers may pass a generator or a cursor, which '
+                                    'the first pass exhausts - the second pass then does nothing and what it was to record (links, pages) is silently lost' % (u.qual, prm)))
+    rr.require(n, 4, 'batch arguments of facade requests')
